@@ -242,6 +242,10 @@ def classify(j):
     if j.timed_out:
         return "undecided"
     if j.rc == 0:
+        if "VERIF-ENV-SKIP" in j.out and "--- FAIL" not in j.out:
+            # the unit declared that this environment cannot run it (no ptrace, no effective permission bits, ...):
+            # it is labelled in the evidence and the health thresholds say whether the rest suffices
+            return "ok"
         if j.want_checks is not None:
             got = sum(int(x) for x in RE_PASSED.findall(j.out))
             if got < j.want_checks:
